@@ -222,6 +222,9 @@ func (fx *Fx) evalObj(st *State, obj types.Object, e ast.Expr) Val {
 		}
 		fx.ensureVar(st, o)
 		if c.boxedVars[o] {
+			if s, named, isPtr := structOf(o.Type()); s != nil && !isPtr && !opaqueNamed(named) {
+				return fx.readLoc(st, &Loc{kind: locStructAt, ref: st.vars[o], T: o.Type()})
+			}
 			return fx.readLoc(st, &Loc{kind: locHeap, key: "P:" + typeKey(o.Type()), srt: c.sortOf(o.Type()), ref: st.vars[o], T: o.Type()})
 		}
 		return Val{T: st.vars[o], S: c.sortOf(o.Type()), GT: o.Type()}
@@ -295,6 +298,7 @@ func (fx *Fx) evalUnary(st *State, e *ast.UnaryExpr) []Val {
 		case locStructAt:
 			return []Val{{T: loc.ref, S: "Int", GT: fx.info.TypeOf(e)}}
 		case locHeap, locGlobal:
+			fx.readLoc(st, loc) // records the declared facts (nonnil, ranges) about the current content
 			id := fx.locIdentity(st, loc)
 			t := c.define("ip", "Int", id)
 			st.assume(fmt.Sprintf("(> %s 0)", t))
@@ -328,6 +332,7 @@ func (fx *Fx) evalSliceExpr(st *State, e *ast.SliceExpr) Val {
 	case *types.Slice:
 		s := fx.eval(st, e.X)
 		s.T = c.define("s", "Slice", s.T)
+		fx.wfSlice(st, s.T)
 		lo, hi, mx := "0", "(s_len "+s.T+")", "(s_cap "+s.T+")"
 		if e.Low != nil {
 			lo = fx.eval(st, e.Low).T
@@ -638,4 +643,17 @@ func (fx *Fx) elemPtr(st *State, t types.Type, base, idx string) string {
 		st.assume(fmt.Sprintf("(and (> %s 0) (= (%s_base %s) %s) (= (%s_idx %s) %s))", p, name, p, base, name, p, idx))
 	}
 	return p
+}
+
+// wfSlice: every Go slice value is well formed (0 <= len <= cap, nil base implies cap 0).
+func (fx *Fx) wfSlice(st *State, t string) {
+	if fx.c.wfDone == nil {
+		fx.c.wfDone = map[string]bool{}
+	}
+	k := st.pc + "|" + t
+	if fx.c.wfDone[k] {
+		return
+	}
+	fx.c.wfDone[k] = true
+	st.assume(fmt.Sprintf("(and (<= 0 (s_off %s)) (<= 0 (s_len %s)) (<= (s_len %s) (s_cap %s)) (>= (s_base %s) 0) (=> (= (s_base %s) 0) (= (s_cap %s) 0)))", t, t, t, t, t, t, t))
 }
